@@ -476,6 +476,16 @@ pub fn each(ops: Ops, env: &mut Uiua) -> UiuaResult {
     }
 }
 
+/// Pop a result of each's function
+///
+/// The results are collected by their positions, so they do not keep map keys,
+/// which would merge the results that have equal keys
+fn pop_each_result(env: &mut Uiua) -> UiuaResult<Value> {
+    let mut val = env.pop("each's function result")?;
+    val.meta.take_map_keys();
+    Ok(val)
+}
+
 pub(crate) fn each1(f: SigNode, mut xs: Value, env: &mut Uiua) -> UiuaResult {
     if let Some((f, ..)) = f_mon_fast_fn(&f.node, env) {
         let rank = xs.rank();
@@ -499,7 +509,7 @@ pub(crate) fn each1(f: SigNode, mut xs: Value, env: &mut Uiua) -> UiuaResult {
             env.push(val);
             env.exec(f.clone())?;
             for i in 0..outputs {
-                new_values[i].push(env.pop("each's function result")?);
+                new_values[i].push(pop_each_result(env)?);
             }
         }
         Ok(())
@@ -540,7 +550,7 @@ fn each2(f: SigNode, mut xs: Value, mut ys: Value, env: &mut Uiua) -> UiuaResult
                 env.push(x);
                 env.exec(f.clone())?;
                 (0..outputs)
-                    .map(|_| env.pop("each's function result"))
+                    .map(|_| pop_each_result(env))
                     .collect::<Result<MultiOutput<_>, _>>()
             })
         })?;
@@ -591,7 +601,7 @@ fn eachn(f: SigNode, mut args: Vec<Value>, env: &mut Uiua) -> UiuaResult {
             }
             env.exec(f.clone())?;
             for i in 0..outputs {
-                new_values[i].push(env.pop("each's function result")?);
+                new_values[i].push(pop_each_result(env)?);
             }
         }
         Ok(())
